@@ -8,7 +8,7 @@ from ..absint import SAME, VIEW, tensor_params_of
 from ..cfg import ENTRY, EXIT, RAISE, reaching_defs
 from ..common import calls_named, dotted, kw, loc, norm
 from ..model import AnalysisError, ClassInfo, own_nodes
-from .util import anchor_func, assigned_name, build_cfg, facts, switch_assumptions
+from .util import anchor_func, assigned_name, build_cfg, cond_assigns, facts, switch_assumptions
 from . import opcontract
 from .c12 import interp
 
@@ -115,11 +115,14 @@ def r04_3(run):
     public = {"graph.base.tensor", "node.tensor", "self"}
     for c in mirrors:
         t, s = kw(c, "target"), kw(c, "source")
-        ok = t is not None and s is not None and norm(t) in public and isinstance(s, ast.Name)
+        ok = t is not None and s is not None and norm(t) in public
         srcdef = None
         if ok:
-            defs = reaching_defs(cfg, s.id, cfg.stmt_node_containing(c))
-            vals = [getattr(cfg.stmt[d], "value", None) for d in defs if d != ENTRY]
+            if isinstance(s, ast.Name):
+                defs = reaching_defs(cfg, s.id, cfg.stmt_node_containing(c))
+                vals = [getattr(cfg.stmt[d], "value", None) for d in defs if d != ENTRY]
+            else:
+                vals = [s]  # the producing call written in place (normal form N7 inlines single-use temporaries)
             ok = bool(vals) and all(isinstance(v, ast.Call) and isinstance(v.func, ast.Attribute) and v.func.attr in ("_op", "_replay_op")
                                     or isinstance(v, ast.Name) for v in vals)
             srcdef = [norm(v)[:30] for v in vals]
@@ -337,17 +340,17 @@ def r04_5(run):
     detail = "loop replaying the views not found"
     for lp in loops:
         nd = norm(lp.target)
-        sel = [s for s in own_nodes(lp) if isinstance(s, ast.Assign) and isinstance(s.value, ast.IfExp)]
-        for s in sel:
-            v = s.value
+        # normal form: `if <node>.parent is self: p = <unshaped> else: p = <node>.parent` (whichever way the source spelled the selection)
+        for (st, tgt, test, a, b) in cond_assigns(lp):
+            if tgt is None:
+                continue
             unn = assigned_name(un[0]) if un else None
-            t = norm(v.test).replace(" ", "")
-            good = (t == f"{nd}.parentisnotself" and norm(v.body) == f"{nd}.parent" and norm(v.orelse) == unn) or \
-                   (t == f"{nd}.parentisself" and norm(v.orelse) == f"{nd}.parent" and norm(v.body) == unn)
-            rp = [c for c in calls_named(lp, "_replay_op") if c.args and norm(c.args[0]) == assigned_name(s)]
+            t = norm(test)
+            good = t in (f"{nd}.parent is self", f"self is {nd}.parent") and norm(b) == f"{nd}.parent" and norm(a) == unn
+            rp = [c for c in calls_named(lp, "_replay_op") if c.args and norm(c.args[0]) == tgt]
             if good and rp:
                 ok = True
-            detail = f"parent selection `{norm(v)[:70]}`"
+            detail = f"parent selection `{norm(a)} if {t} else {norm(b)}`"[:90]
     run.ob("R04.5", loc(fi, loops[0] if loops else fi.node), fi.short, "a view is replayed on the un-reshape exactly when its parent is the re-shaped tensor itself", ok,
            detail if ok else detail + ": views are replayed on a tensor of the wrong shape / the wrong parent")
     old = [s for s in own_nodes(fi.node) if isinstance(s, ast.Assign) and norm(s.value) == "self.shape" and assigned_name(s)]
